@@ -281,17 +281,23 @@ static void VP_EOL(void) {
     return Harness('C03.writer.' + fn, 'C03', parts, enforce=fn, loop_contracts=True, expect_loop_obligations=1, stubs=['apr (R22p tokens)', 'feeder (ghost: chooses the number of entries)'])
 
 
-def replay_defvar(lead, inputs, obs):
+def replay_mode(mode):
+    def r(lead, inputs, obs):
+        return replay_defvar(lead, inputs, obs, mode)
+    return r
+
+
+def replay_defvar(lead, inputs, obs, mode='defvar'):
     import os
     import subprocess
     from specs.C03_header import replay_header
     from vp.run import BUILD
     ok, out, cmd = replay_header(lead, inputs, obs)     # builds the driver
     drv = os.path.join(BUILD, 'replay', 'c03_header_replay')
-    if not os.path.exists(drv):
+    if not os.path.exists(drv) or out.startswith('replay driver build failed'):
         return False, out, cmd
-    p = subprocess.run([drv, 'defvar'], capture_output=True, text=True, timeout=300)
-    return p.returncode == 10, (p.stdout + p.stderr)[-2000:], drv + ' defvar'
+    p = subprocess.run([drv, mode], capture_output=True, text=True, timeout=300)
+    return p.returncode == 10, (p.stdout + p.stderr)[-2000:], drv + ' ' + mode
 
 
 def harnesses():
@@ -299,4 +305,7 @@ def harnesses():
     a.replay = replay_defvar
     b.replay = replay_defvar
     infty_check()
-    return [a, b, h_bounds_roundtrip(False), h_bounds_roundtrip(True)] + line_harnesses() + [h_vec_headers('WriteLinearConExpr', 'J', 'num_algebraic_cons', 'FeedLinearConExpr'), h_vec_headers('WriteObjGradients', 'G', 'num_objs', 'FeedObjGradient')]
+    rest = [h_bounds_roundtrip(False), h_bounds_roundtrip(True)] + line_harnesses() + [h_vec_headers('WriteLinearConExpr', 'J', 'num_algebraic_cons', 'FeedLinearConExpr'), h_vec_headers('WriteObjGradients', 'G', 'num_objs', 'FeedObjGradient')]
+    for h in rest:
+        h.replay = replay_mode('linear')
+    return [a, b] + rest
